@@ -116,6 +116,11 @@ class AbsEval(ConstEval):
 
     def binop(self, op, a, b):
         if isinstance(a, Res) or isinstance(b, Res):
+            if isinstance(op, ast.Add):
+                ta, tb = pytype_of(a) if isinstance(a, Res) else type(a).__name__, pytype_of(b) if isinstance(b, Res) else type(b).__name__
+                texty, numy = ("str", "bytes"), ("int", "float", "Decimal", "datetime", "bool", "NoneType")
+                if (ta in texty and tb in numy) or (tb in texty and ta in numy):
+                    raise AbsRaise("TypeError", f"can only concatenate {ta if ta in texty else tb} (not {tb if ta in texty else ta!r}) to it")
             return Res(type(op).__name__, a, b)
         if isinstance(a, AObj) or isinstance(b, AObj):
             raise AbsRaise("TypeError", f"operator on {a!r}, {b!r}")
@@ -127,6 +132,11 @@ class AbsEval(ConstEval):
         if isinstance(op, (ast.Is, ast.IsNot)):
             same = a is b or (a is None and b is None) or (isinstance(a, Res) and a == b)
             if (a is None) != (b is None):
+                other = b if a is None else a
+                if isinstance(other, Res) and other.op.startswith("attr:"):
+                    # an attribute of a library value (datetime.tzinfo, ...) can be None: not decided by the term
+                    r_ = self.branch(Res("IsNone", other), node)
+                    return r_ if isinstance(op, ast.Is) else not r_
                 same = False
             return same if isinstance(op, ast.Is) else not same
         if isinstance(op, (ast.In, ast.NotIn)) and isinstance(a, Res) and isinstance(b, (dict, list, tuple, set, frozenset, str)):
@@ -631,7 +641,7 @@ class AbsEval(ConstEval):
             t0 = pytype_of(a0)
             if name in ("float", "int") and t0 in ("str", None):
                 self.may_raise("ValueError", node, f"{name}() of wire text")
-            if name in ("int", "round") and t0 == "float":
+            if name in ("int", "round") and t0 == "float" and _has_text_float(a0):
                 self.may_raise("OverflowError", node, f"{name}() of a float that can be infinite ('inf' or a huge exponent in the transmitted text)")
                 self.may_raise("ValueError", node, f"{name}() of a float that can be NaN")
             if name == "Decimal" and t0 in ("str", None):
@@ -947,6 +957,17 @@ class AbsEval(ConstEval):
             return ("undecided", str(ex))
         except RecursionError:
             return ("undecided", "recursion limit")
+
+
+def _has_text_float(t, depth=0):
+    """the term contains a float read from text (which can be inf / nan); products of bounded integers and constants cannot"""
+    if depth > 12 or not isinstance(t, Res):
+        return False
+    if t.op == "float" and t.args and (not isinstance(t.args[0], Res) or pytype_of(t.args[0]) in ("str", None)):
+        return True
+    if t.op.startswith("attr:") or t.op in ("lookup", "item"):
+        return True  # of unknown origin
+    return any(_has_text_float(a, depth + 1) for a in t.args)
 
 
 def _typed(res, pytype):
